@@ -7,7 +7,7 @@ length <= L over the universe up to regex-indistinguishability.
 from typing import List
 
 from vfw import hs, corpus, alpha
-from vfw.refsem import cfg, shape, posref
+from vfw.refsem import cfg, shape, posref, lexref
 
 P = hs.params()
 
@@ -44,6 +44,9 @@ if P:
         elif _t.pattern.type == 'str':
             NAME_MAP[_t.name] = BNF.anon.get((_t.pattern.value, ''.join(sorted(_t.pattern.flags))), BNF._named_str.get(_t.pattern.value, _t.name))
     LARK_MODE = 'lark_complete' if LEXER == 'dynamic_complete' else 'lark_dynamic'
+    if FAMILY == 'basic' and 'errpos' in ASSERTS:
+        TERMS_REF = lexref.from_dsl(GRAMMAR, LARK, as_bytes=BYTES)
+        IGNORE_REF = [n for n in GRAMMAR.ignore if not (n.startswith('/') or n.startswith('"'))] + [str(t.name) for t in LARK.terminals if str(t.name).startswith('__IGNORE')]
 
 
 def worker_extra():
@@ -146,6 +149,59 @@ def _check_text_error(rec, text, exc, recog):
     return hs.fail(rec, 'dynamic lexer rejection reported as %s' % type(exc).__name__, text=repr(text))
 
 
+def _check_text_error_basic(rec, text, exc):
+    """C08 at text level for the basic/contextual lexers (grammars whose terminals do not depend on the parser state): the error is at
+    the first token that makes the consumed prefix non-extendable, or at the first character no terminal matches, whichever comes
+    first, with the line/column of that offset; an exhausted proper prefix is reported at the end with the last token's coordinates."""
+    toks, lerr = lexref.lex(text, TERMS_REF, ignore=IGNORE_REF)
+    kinds = [NAME_MAP.get(t[0], t[0]) for t in toks]
+    rec['count']['errors_checked'] = int(exc is not None)
+    bad = None
+    for k in range(len(kinds)):
+        if not cfg.Frontier(BNF, cfg.TokenInput(kinds[:k + 1])).viable():
+            bad = k
+            break
+    if bad is not None:
+        kind, pos = 'token', toks[bad][2]
+    elif lerr is not None:
+        kind, pos = 'char', lerr
+    else:
+        kind, pos = 'end', None
+    member = kind == 'end' and cfg.Recognizer(BNF, cfg.TokenInput(kinds)).member()
+    if exc is None:
+        if not member:
+            return hs.fail(rec, 'accepted a text whose token sequence is not a sentence', text=repr(text), kinds=kinds)
+        return True
+    if member:
+        return hs.fail(rec, 'rejected a text whose token sequence is a sentence', text=repr(text), kinds=kinds, exc=repr(exc))
+    if isinstance(exc, UnexpectedCharacters):
+        if kind != 'char' or exc.pos_in_stream != pos:
+            return hs.fail(rec, 'UnexpectedCharacters at %s, reference: first offending %s at %s' % (exc.pos_in_stream, kind, pos), text=repr(text))
+        if (exc.line, exc.column) != posref.coords(text, pos):
+            return hs.fail(rec, 'UnexpectedCharacters line/column are not those of its offset', text=repr(text), pos=pos, got=[exc.line, exc.column],
+                           want=list(posref.coords(text, pos)))
+        return True
+    if isinstance(exc, UnexpectedToken) and exc.token.type != '$END':
+        t = exc.token
+        if kind != 'token' or t.start_pos != pos:
+            return hs.fail(rec, 'UnexpectedToken at %s, reference: first offending %s at %s' % (t.start_pos, kind, pos), text=repr(text), token=[t.type, str(t)])
+        if (t.line, t.column) != posref.coords(text, pos) or (exc.line, exc.column) != (t.line, t.column):
+            return hs.fail(rec, 'UnexpectedToken line/column are not those of the offending token', text=repr(text), pos=pos,
+                           got=[t.line, t.column, exc.line, exc.column], want=list(posref.coords(text, pos)))
+        return True
+    if isinstance(exc, (UnexpectedToken, UnexpectedEOF)):
+        if kind != 'end':
+            return hs.fail(rec, 'end of input reported, reference: first offending %s at %s' % (kind, pos), text=repr(text))
+        if isinstance(exc, UnexpectedToken) and toks:
+            t = exc.token
+            last = toks[-1]
+            if t.start_pos != last[2] or (t.line, t.column) != posref.coords(text, last[2]):
+                return hs.fail(rec, 'unexpected $END does not carry the coordinates of the last token', text=repr(text), got=[t.start_pos, t.line, t.column],
+                               want=[last[2]] + list(posref.coords(text, last[2])))
+        return True
+    return hs.fail(rec, 'rejection reported as %s' % type(exc).__name__, text=repr(text))
+
+
 def _body(rec, cs):
     text = hs.class_string(cs, REPS, use_bytes=BYTES)
     exc = tree = None
@@ -179,6 +235,10 @@ def _body(rec, cs):
                 return hs.fail(rec, ('rejected a sentence' if is_member else 'accepted a non-sentence'), text=repr(text), exc=repr(exc))
         if exc is not None and 'errpos' in ASSERTS and FAMILY == 'dynamic':
             r = _check_text_error(rec, text, exc, recog)
+            if r is not True:
+                return r
+        if 'errpos' in ASSERTS and FAMILY == 'basic':
+            r = _check_text_error_basic(rec, text, exc)
             if r is not True:
                 return r
         if exc is None and 'pos' in ASSERTS:
